@@ -288,3 +288,21 @@ def enum_rpreemptions(progs, bases, nws, names=('SUBMIT', 'SUBMIT_BATCH'),
                         }
                         case.update(extra or {})
                         yield case
+
+
+def abandon_safe(fn):
+    """A drawn interleaving the simulator cannot continue faithfully is an
+    inconclusive case, never a violation."""
+    import functools
+    from vt.core import Outcome
+
+    @functools.wraps(fn)
+    def wrapped(case):
+        from vt.simrt.sim import Abandon
+        try:
+            return fn(case)
+        except Abandon:
+            out = Outcome()
+            out.label('inconclusive:interleaving-not-continuable')
+            return out
+    return wrapped
